@@ -4,6 +4,7 @@ COMMON = ['harness/common/vh.c']
 
 HARNESS = {
     'bits': dict(srcs=['harness/corelab/bits.c'] + COMMON),
+    'block': dict(srcs=['harness/corelab/block.c'] + COMMON),
 }
 
 ENGINES = [
@@ -51,5 +52,35 @@ PROPS['C18'] = dict(
              thorough=30000000,
              require=['write.fits', 'write.too_small', 'get.overflow_seen',
                       'stream.multiseg', 'stream.overflow_seen']),
+    ],
+)
+
+PROPS['C03'] = dict(
+    engine='corelab',
+    technique='runtime monitoring: byte-vector reference model compared '
+              'through the full accessor battery after every operation of '
+              'random operation histories; ASan build',
+    level_text='Model-based randomised testing: every mutating block '
+               'operation of a generated history is mirrored on a byte '
+               'vector; size, size_linear, read, peek, extract, iovec, scan, '
+               'find, compare, equal, match and the octet stream are compared '
+               'after each step on all touched handles, for 8 manager '
+               'configurations, under AddressSanitizer.',
+    level_note=SAN_NOTE + 'Arguments outside the documented domain are only '
+               'judged by: error => unchanged; success => still a consistent '
+               'byte string (except offsets before the start / reads past the '
+               'end, which must be refused).',
+    rule='case = history of 30 operations on up to 8 handles; non-trivial = '
+         'history during which the battery ran on a block of >= 3 segments; '
+         'distinct = distinct hash of the operation/argument sequence',
+    assumptions=['undocumented negative offsets of insert/delete/truncate are '
+                 'judged only by the weak rule',
+                 'octets revealed by prepend / copy extension are unspecified '
+                 '(adopted by the model)'],
+    jobs=[
+        dict(name='block', bin='block', variant='asan', mode='c03',
+             quick=40000, thorough=2000000,
+             require=['battery.on_3plus_segments', 'acc.peek_bounce',
+                      'op.prepend_ok', 'ood.error', 'acc.find']),
     ],
 )
